@@ -85,8 +85,12 @@ impl Scenario for C03 {
     }
     fn before(&self, w: &World, x: &mut X, a: &Action) {
         let now = w.now_ms();
-        let st = x.svc.state_sync();
-        x.pre_open = st == CircuitState::Open && t_open(&x.tl).map_or(false, |t| now < t + self.cfg.wait_ms);
+        // Shielded: the breaker was seen to open less than wait_duration_in_open ago.  Nothing
+        // in this scenario's alphabet may end that period early (no force_closed / reset), so
+        // the shield is judged from the transition log, not from the state shown right now:
+        // a breaker that slips back to closed before the wait has elapsed must still not let
+        // a new call through.
+        x.pre_open = t_open(&x.tl).map_or(false, |t| now < t + self.cfg.wait_ms);
         x.pre_calls = w.inner.lock().unwrap().calls.len();
         x.pre_had_inner = match a {
             Action::Poll(c) => has_inner(w, *c as usize),
